@@ -445,3 +445,93 @@ prop('C20',
 
 # properties not claimed (yet), with the reason printed in MANIFEST.json
 NOT_CLAIMED = {}
+
+
+# -----------------------------------------------------------------------------
+# Observation points of every property (from anchors.observe_at): a finding of
+# *any* rule that lies in code reachable from them is attributed to the
+# property (chk/reach.py); the rules listed in prop(...) above are its own.
+# 'K.m' one method (plus K.__init__), 'K+.m' also for all subclasses, 'K.*'
+# every public method, 'ALL.m' / 'PLOTS.m' every library / plot class with m.
+# -----------------------------------------------------------------------------
+ENTRY = {
+    'C01': ['LogLikelihood.__call__', 'LogLikelihood.compute_pointwise_ll',
+            'LogLikelihood.n_observations', 'LogPosterior.__call__'],
+    'C02': ['HierarchicalLogLikelihood.__call__',
+            'HierarchicalLogPosterior.__call__',
+            'HierarchicalLogLikelihood.get_parameter_names',
+            'HierarchicalLogLikelihood.get_id',
+            'HierarchicalLogLikelihood.n_parameters',
+            'HierarchicalLogPosterior.get_parameter_names',
+            'HierarchicalLogPosterior.get_id',
+            'HierarchicalLogPosterior.n_parameters'],
+    'C03': ['LogLikelihood.evaluateS1', 'LogLikelihood.__call__',
+            'LogPosterior.evaluateS1', 'LogPosterior.__call__',
+            'HierarchicalLogLikelihood.evaluateS1',
+            'HierarchicalLogLikelihood.__call__',
+            'HierarchicalLogPosterior.evaluateS1',
+            'HierarchicalLogPosterior.__call__'],
+    'C04': ['ErrorModel+.compute_log_likelihood',
+            'ErrorModel+.compute_pointwise_ll',
+            'ErrorModel+.compute_sensitivities',
+            'ReducedErrorModel.compute_log_likelihood',
+            'ReducedErrorModel.compute_pointwise_ll',
+            'ReducedErrorModel.compute_sensitivities'],
+    'C05': ['PopulationModel+.compute_log_likelihood',
+            'PopulationModel+.compute_sensitivities',
+            'PopulationModel+.compute_individual_parameters',
+            'PopulationModel+.n_hierarchical_parameters'],
+    'C06': ['ErrorModel+.sample', 'ReducedErrorModel.sample',
+            'PopulationModel+.sample',
+            'PopulationModel+.compute_individual_parameters',
+            'PopulationModel+.get_mean_and_std'],
+    'C07': ['CovariatePopulationModel.*', 'CovariateModel+.*'],
+    'C08': ['ReducedErrorModel.*', 'ReducedMechanisticModel.*',
+            'ReducedPopulationModel.*', 'LogLikelihood.fix_parameters',
+            'PredictiveModel+.fix_parameters',
+            'ProblemModellingController.fix_parameters'],
+    'C09': ['SBMLModel+.parameters', 'SBMLModel+.outputs',
+            'SBMLModel+.simulate', 'SBMLModel+.enable_sensitivities',
+            'SBMLModel+.n_parameters', 'SBMLModel+.set_outputs',
+            'ReducedMechanisticModel.parameters',
+            'ReducedMechanisticModel.outputs',
+            'ReducedMechanisticModel.simulate',
+            'ReducedMechanisticModel.enable_sensitivities',
+            'ModelLibrary.*'],
+    'C10': ['PKPDModel.set_administration', 'PKPDModel.set_dosing_regimen',
+            'PKPDModel.simulate', 'PKPDModel.dosing_regimen',
+            'PredictiveModel+.get_dosing_regimen',
+            'PredictiveModel+.set_dosing_regimen',
+            'AveragedPredictiveModel+.set_dosing_regimen',
+            'AveragedPredictiveModel+.get_dosing_regimen',
+            'ProblemModellingController.get_dosing_regimens',
+            'ProblemModellingController.set_data',
+            'ProblemModellingController._create_log_likelihoods',
+            'LogLikelihood.__init__'],
+    'C11': ['SBMLModel+.*', 'ReducedMechanisticModel.*'],
+    'C12': ['PopulationFilter+.compute_log_likelihood',
+            'PopulationFilter+.compute_sensitivities',
+            'PopulationFilter+.sort_times'],
+    'C13': ['PopulationFilterLogPosterior.__call__',
+            'PopulationFilterLogPosterior.evaluateS1',
+            'PopulationFilterLogPosterior.get_parameter_names',
+            'PopulationFilterLogPosterior.get_id',
+            'PopulationFilterLogPosterior.n_parameters'],
+    'C14': ['ProblemModellingController.*', 'LogPosterior.__call__',
+            'HierarchicalLogPosterior.__call__'],
+    'C15': ['PredictiveModel+.sample', 'AveragedPredictiveModel+.sample'],
+    'C16': ['ALL.sample', 'ALL.sample_initial_parameters'],
+    'C17': ['ALL.n_parameters', 'ALL.get_parameter_names', 'ALL.get_id',
+            'ALL.n_hierarchical_parameters', 'ALL.evaluateS1',
+            'ALL.parameters'],
+    'C18': ['ALL.sample_initial_parameters', 'SamplingController.run',
+            'SamplingController._format_chains',
+            'OptimisationController.run', 'PosteriorPredictiveModel.*',
+            '.compute_pointwise_loglikelihood'],
+    'C19': ['ALL.__call__', 'ALL.evaluateS1', 'ALL.compute_log_likelihood',
+            'ALL.compute_pointwise_ll', 'ALL.compute_sensitivities',
+            'ALL.compute_individual_parameters', 'ALL.sample',
+            'ALL.simulate', 'ALL.get_mean_and_std'],
+    'C20': ['PLOTS.add_data', 'PLOTS.add_prediction',
+            'PLOTS.add_simulation'],
+}
